@@ -9,6 +9,7 @@
 -/
 import Hw.Bitmap.History
 import Hw.Bitmap.Inclusion
+import Hw.Bitmap.Alias
 namespace Hw.Props.C03
 open Hw Hw.Bitmap
 
@@ -165,6 +166,33 @@ theorem C03_repr_compare_inclusion (h : ∀ n, a.mem n = a'.mem n) (g : ∀ n, b
     C03_repr_isincluded g h, C03_repr_intersects h g]
 
 end ReprIndependence
+
+/-! ## 4. results do not depend on whether the destination aliases an operand
+
+`binopStore` / `notStore` are the literal C procedures over a store of structs addressed by handles (counts cached,
+`reset_by_ulongs(res)` first, every later read from the current memory, stale words beyond `ulongs_count`
+arbitrary).  For ALL handles — equal or not — the destination ends up as the pure operation applied to the
+ORIGINAL operands and no other struct changes. -/
+
+theorem C03_alias_or (r s1 s2 : Nat) (st : Store) :
+    (binopStore opOr r s1 s2 st r).toBitmap = (st s1).toBitmap.or (st s2).toBitmap ∧
+    ∀ h, h ≠ r → binopStore opOr r s1 s2 st h = st h := by
+  rw [← binopPure_or]; exact binop_alias opOr opOr_ok r s1 s2 st
+theorem C03_alias_and (r s1 s2 : Nat) (st : Store) :
+    (binopStore opAnd r s1 s2 st r).toBitmap = (st s1).toBitmap.and (st s2).toBitmap ∧
+    ∀ h, h ≠ r → binopStore opAnd r s1 s2 st h = st h := by
+  rw [← binopPure_and]; exact binop_alias opAnd opAnd_ok r s1 s2 st
+theorem C03_alias_andnot (r s1 s2 : Nat) (st : Store) :
+    (binopStore opAndnot r s1 s2 st r).toBitmap = (st s1).toBitmap.andnot (st s2).toBitmap ∧
+    ∀ h, h ≠ r → binopStore opAndnot r s1 s2 st h = st h := by
+  rw [← binopPure_andnot]; exact binop_alias opAndnot opAndnot_ok r s1 s2 st
+theorem C03_alias_xor (r s1 s2 : Nat) (st : Store) :
+    (binopStore opXor r s1 s2 st r).toBitmap = (st s1).toBitmap.xor (st s2).toBitmap ∧
+    ∀ h, h ≠ r → binopStore opXor r s1 s2 st h = st h := by
+  rw [← binopPure_xor]; exact binop_alias opXor opXor_ok r s1 s2 st
+theorem C03_alias_not (r s : Nat) (st : Store) :
+    (notStore r s st r).toBitmap = (st s).toBitmap.not ∧ ∀ h, h ≠ r → notStore r s st h = st h :=
+  not_alias r s st
 
 /-! ## non-vacuity: two different representations of the set {64, 65, …} -/
 
